@@ -432,7 +432,11 @@ def _flatten(a):
     if isinstance(a, Seq):
         n = concrete_int(a.length)
         if n is None:
-            raise Unsupported('symbolic-length sequence passed to an uninterpreted function')
+            # the sequence as a mathematical object: (length, index function) — the index
+            # function becomes a z3 lambda (array) term; equal bodies give equal arguments
+            j = z3.Int('_lam')
+            parts = _flatten(a.fn(j))
+            return [a.length] + [z3.Lambda([j], p) for p in parts]
         out = []
         for k in range(n):
             out.extend(_flatten(a.fn(z3.IntVal(k))))
